@@ -277,12 +277,16 @@ fn run_scenario(sc: &Scenario<'_>, rep: &mut Report) {
                 fails.push(("pages_not_bit_exact", format!("after the second controller's send: {}", e)));
             }
             drop(other);
+            // ... and a controller for ANOTHER address comes into being on the same bus before the first one goes on (controller
+            // objects come and go; what one of them holds must not move under it)
+            let stranger = ctl::mk_sign(bus.clone(), sc.addr ^ 0x0101, (sc.ty + 1) % TYPES.len());
             let out = ctl::run_op(&sign, &Op::SendPages, &last);
             steps.push(format!("first controller: send_pages({}) (the list it sent before) -> {}", last.len(), out.show()));
             check!(out == SignOut::OkStyle { automatic: sc.auto }, "send_pages_result", "send_pages returned {}", out.show());
             if let Err(e) = pages_equal(bus.borrow().sign(pos).pages(), &last) {
                 fails.push(("pages_not_bit_exact", format!("after the first controller re-sent the list it had sent before (another controller had sent other pages in between): {}", e)));
             }
+            drop(stranger);
             rep.count("two_controllers_taking_turns");
             if !fails.is_empty() {
                 break 'run;
